@@ -670,8 +670,9 @@ def build_trace(build, stim_seed, cycles, regular_comb=True, label=None, reset_m
     mfeat = set()
     for mem in mema:
         clocks_ = {p.clock.cd for p in mem.ports}
-        if len(clocks_) > 1 and any(p.mode == WRITE_FIRST and not p.async_read for p in mem.ports):
-            mfeat.add("dual-clock-write-first")
+        if len(clocks_) > 1 and any(not p.async_read and (p.mode == WRITE_FIRST or (p.mode == NO_CHANGE and p.we is not None))
+                                    for p in mem.ports):
+            mfeat.add("dual-clock-forced-read-first")
         if any(p.mode == NO_CHANGE and not p.async_read and p.we is not None and len(p.we) > 1 for p in mem.ports):
             mfeat.add("no-change-granular-we")
     # ---- the back end
